@@ -2646,10 +2646,11 @@ def repartition_npartitions(bag, npartitions):
 
     new_name = f"repartition-{npartitions}-{tokenize(bag, npartitions)}"
     if bag.npartitions > npartitions:
-        ratio = bag.npartitions / npartitions
+        # Integer arithmetic: with a float ratio the last boundary can round
+        # down to bag.npartitions - 1, which adds an extra partition
         new_partitions_boundaries = [
-            int(old_partition_index * ratio)
-            for old_partition_index in range(npartitions + 1)
+            new_partition_index * bag.npartitions // npartitions
+            for new_partition_index in range(npartitions + 1)
         ]
         return _repartition_from_boundaries(bag, new_partitions_boundaries, new_name)
     else:  # npartitions > bag.npartitions
